@@ -126,7 +126,7 @@ PROPS["C07"] = eval_prop("C07", ["proofs/AnchorsSitesMemo.v"], ["C07", "C07_flat
 PROPS["C08"] = eval_prop("C08", ["proofs/AnchorsSitesMemo.v", "proofs/AnchorsSitesFlags.v"], ["C08", "C08_flat"],
     "C08: Execute and FetchMatchingRules from arbitrary memory contents and arbitrary Retracted flags equal the call on a fresh instance; site inventory of "
     "every memo/flag mutation (incl. range-over-map resets) anchors ResetAll/Reset. Harness: histories of calls on one instance vs fresh instances.")
-PROPS["C13"] = eval_prop("C13", ["proofs/AnchorsSitesMemo.v", "proofs/Potential.v", "proofs/CallCount.v", "proofs/CallCountExamples.v"], ["C13", "C13_run", "C13_run_example"],
+PROPS["C13"] = eval_prop("C13", ["proofs/AnchorsSitesMemo.v", "proofs/Potential.v", "proofs/CallCount.v", "proofs/CallCountExamples.v", "proofs/AliasExact.v"], ["C13", "C13_run", "C13_run_example", "C13_alias_exact"],
     "C13_run: over a whole Execute call (any instance state, entries, budget, cancellation point, iteration order) a counted method that occurs with one text "
     "runs at most once plus once per invalidation event among the executed statements (potential argument over the abstract engine); tight on a parsed example. "
     "C13: a successful method call / field read is remembered; a remembered node is answered without touching facts, counters or memory; evaluating "
